@@ -288,7 +288,9 @@ def run_one(tapes, tier, scenario=None):
         # consumption: recv calls with data after the refusal point
         first_send = s.send_log[0][0] if s.send_log else None
         data_recvs_after = [e for e in k.history if e[2] == "recv" and e[3] == 0 and e[4] > 0 and first_send is not None and e[0] > first_send]
-        if data_recvs_after:
+        if len(data_recvs_after) > 1:
+            # (one read may already be in flight when the worker starts answering: readable() is evaluated
+            # without a lock; its data is dropped unparsed by received().  The property allows one read.)
             res.v("kept_consuming", shape, "%d data-bearing recv call(s) after the error response started" % len(data_recvs_after))
         # reads after the read in which the limit was crossed
         if exp["cross_pos"] is not None:
